@@ -52,7 +52,7 @@ fn main() {
         "C02" => {
             let r = c02::run(seed, thorough, &out, &scratch);
             Summary { viol: r.viol, evaluations: r.evaluations, distinct: r.distinct.len(), stats: r.stats, samples: r.samples,
-                rule: "histories on a real on-disk node: extensions with fee-paying transactions (proposed, then committed inside the window; in-block chains, conflicting spends, re-commits of the same transaction on a competing branch, uncles), competing branches that take over (longer, or shorter but heavier after the first epoch), truncations, restarts; after every change of the main chain COLUMN_CELL / TRANSACTION_INFO / INDEX / UNCLES are dumped by iteration from the store and from the published snapshot and compared with a replay of the main chain (property predicate) and with the Coq model's reorg. distinct = distinct histories, each >= 5 steps" }
+                rule: "histories on a real on-disk node: extensions with fee-paying transactions (proposed, then committed inside the window; in-block chains, conflicting spends, re-commits of the same transaction on a competing branch, uncles), competing branches that take over (longer, or shorter but heavier after the first epoch), truncations, restarts; after every change of the main chain COLUMN_CELL / TRANSACTION_INFO / INDEX / UNCLES are dumped by iteration from the store and from the published snapshot and compared with a replay of the main chain (property predicate) and with the Coq model's reorg; second stream: the blocks of such a history are delivered asynchronously to a fresh node while a reader thread keeps taking Shared::snapshot() and checks every snapshot against a replay of that snapshot's own main chain. distinct = distinct histories, each >= 5 steps" }
         }
         "C03" => {
             let r = c03::run(seed, thorough, &out);
